@@ -32,6 +32,8 @@ type Obligation struct {
 	Goal   string
 	Pos    string
 	Extra  []string // extra declarations/assertions local to this obligation
+	Batch  string     // obligations with the same batch key share one incremental solver run
+	NoStatics bool    // the query carries its own selection of table axioms in Extra
 	Subs   []*SubGoal // when non-empty: the obligation is the conjunction of these goals (one per return site)
 	Expect string   // "unsat" normally; "sat" for vacuity covers
 	// results
@@ -104,6 +106,10 @@ type VC struct {
 	ifacePtr map[string]*PtrDesc
 	readLog  map[string]bool
 	errAxDone bool
+	rtypeOf  map[string]Val
+	statics  []string // initial contents of static table objects (heaps used by this VC)
+	freshKeys map[string]bool
+	dirty    map[string]bool
 	lines    []lineInfo // parallel to script
 }
 
@@ -122,7 +128,7 @@ func newVC(w *World, fn *ssa.Function, c *Contract) *VC {
 	return &VC{w: w, fn: fn, contract: c, declared: map[string]bool{}, pureDone: map[*SpecFn]bool{},
 		heapSort: map[string]string{}, strDone: map[int]bool{}, strSrc: map[string]*strSource{}, strCat: map[string][2]Val{},
 		tableDone: map[string]bool{}, ordinals: map[string]int{}, trusted: map[string]bool{}, snapArrays: map[string][]string{},
-		nonNil: map[string]bool{}, ghostSorts: map[string]string{}, revealed: map[string]bool{}, ifacePtr: map[string]*PtrDesc{}}
+		nonNil: map[string]bool{}, ghostSorts: map[string]string{}, revealed: map[string]bool{}, ifacePtr: map[string]*PtrDesc{}, rtypeOf: map[string]Val{}, freshKeys: map[string]bool{}, dirty: map[string]bool{}}
 }
 
 type outsideSubset struct{ msg string }
@@ -318,6 +324,9 @@ func (vc *VC) storeDesc(st *State, d *PtrDesc, v Val) {
 		return
 	}
 	for k, ll := range vc.leafLocs(d) {
+		if !vc.freshKeys[ll.key] {
+			vc.dirty[ll.name] = true
+		}
 		h := vc.heapTerm(st, ll.name, ll.sort)
 		var nt string
 		if ll.idx != "" {
